@@ -2358,8 +2358,8 @@ def inject_cancel_running_stage(w: World) -> None:
 
 def choice_restart_run(choices: list[Any], sweep: Any, which: Any) -> bool:
     """C11 after the fact: the deferred-choice workload runs to completion (symbolic schedule), the
-    claims retention sweep runs (or not), then an operator restarts one member of the group (the
-    loser or the winner, symbolic).  Still exactly one member of the group ever runs a task: a
+    claims retention sweep runs (or not), then an operator restarts the loser, the winner, or both (in
+    either order; symbolic).  Still exactly one member of the group ever runs a task: a
     restarted loser ends CANCELED again."""
     with hx.Path("choice_restart") as P:
         with hx.native():
@@ -2390,20 +2390,26 @@ def choice_restart_run(choices: list[Any], sweep: Any, which: Any) -> bool:
                     return True  # covered by the group_* obligations
                 winner = ran0[0]
                 loser = "c2" if winner == "c1" else "c1"
-                swept = hx.decide(sweep)
+                wh = hx.pick(which, 4)  # 0: the loser, 1: the winner, 2: both (winner's request first), 3: both (loser's request first)
+                # once the retention sweep has deleted the claim of a finished execution and BOTH members are re-armed, nothing
+                # records the decision any more (O11): the sweep is combined with the restart of one member only
+                swept = hx.decide(sweep) if wh < 2 else False
                 if swept:
                     w.store.cleanup_completed_stage_claims()
-                target = loser if hx.pick(which, 2) == 0 else winner
+                target = loser if wh in (0, 3) else winner
                 w.orchestrator.restart(w.store.retrieve(w.workflow_id), w.refs[target])
+                if wh >= 2:
+                    other = winner if target == loser else loser
+                    w.orchestrator.restart(w.store.retrieve(w.workflow_id), w.refs[other])
                 w.drain()
                 snap = w.snapshot()
                 ran = sorted({e["ref"] for e in w.ledger.entries if e["ref"] in ("c1", "c2")})
-                P.reached((winner, swept, target == loser), {"winner": winner, "swept": swept, "restarted": target})
-                info = {"winner": winner, "claims_swept_before_restart": swept, "restarted": target, "members_that_ran_a_task": ran,
+                P.reached((winner, swept, wh), {"winner": winner, "swept": swept, "restarted": ["loser", "winner", "both, winner first", "both, loser first"][wh]})
+                info = {"winner": winner, "claims_swept_before_restart": swept, "restarted": ["loser", "winner", "both, winner first", "both, loser first"][wh], "members_that_ran_a_task": ran,
                         "final": {m: snap["stages"][m]["status"] for m in ("c1", "c2")}, "before_restart": {m: snap0["stages"][m]["status"] for m in ("c1", "c2")}}
                 if ran != [winner]:
                     return P.fail("C11/choice_restart/second_member_of_the_group_ran/%s" % ("after_sweep" if swept else "no_sweep"), info)
-                if target == loser and snap["stages"][loser]["status"] not in ("CANCELED", "NOT_STARTED", "SKIPPED"):
+                if wh == 0 and snap["stages"][loser]["status"] not in ("CANCELED", "NOT_STARTED", "SKIPPED"):
                     return P.fail("C11/choice_restart/restarted_loser_not_canceled/%s" % snap["stages"][loser]["status"], info)
                 return True
             finally:
